@@ -68,6 +68,8 @@ def run(check: Check) -> None:
         for k2 in ([101] + list(range(101)) if k in cut else [101]):
             for w in range(4):
                 native("quote_in_python", k, k2, w, __SHARD__=k % 4, __K2LO__=0)
+    for k, r, pos in itertools.product(range(101), range(7), range(4)):
+        native("quote_routes", k, r, pos, __SHARD__=k % 4, __R__=r)
     for i, j, w in itertools.product(range(14), range(14), range(3)):
         native("quote_pairs", i, j, w, __SHARD__=i)
     for q, wrap in itertools.product(range(2), range(2)):
@@ -105,7 +107,7 @@ def run(check: Check) -> None:
     fns = {
         "ws_pair": [{"SHARD": i, "J": j} for i, j in pairs],
         "ws_formula": [{"SHARD": k, "S": (1 if thorough else 0)} for k in range(12)],
-        "quote_name": [{"N": N}], "quote_name_factor": [0, 1, 2, 3], "quote_name_known": [0, 1], "quote_python": [{"N": N}],
+        "quote_name": [{"N": N}], "quote_name_factor": [0, 1, 2, 3], "quote_name_known": [0, 1], "quote_routes": [{"SHARD": k, "R": r} for k in range(4) for r in range(7)], "quote_python": [{"N": N}],
         "spans": [{"N": N}],
         "pynorm": list(range(10)), "pystr": [None], "quote_in_python": [{"SHARD": k, "K2LO": 101} for k in range(4)], "quote_pairs": list(range(14)) if thorough else [0, 3, 5, 8, 10], "pylit": [{"SHARD": k, "C2LO": (0 if thorough else 13), "C3LO": 13} for k in range(14)],
     }
